@@ -306,6 +306,9 @@ func TestC11(t *testing.T) {
 	}, Exec: execAssocSeq, NoJournal: true}, 0)
 	core.Rapid(r, core.Check[kinCase]{Name: "sets-of-kin", Gen: genKin, Exec: execKin}, r.N(1500, 15000))
 	core.Rapid(r, core.Check[longDocCase]{Name: "long-documents", Gen: genLongDoc(false), Exec: execLongDoc}, r.N(60, 900))
+	core.DFS(r, core.Check[coldParseCase]{Name: "cold-start", Gen: func(s core.Source) coldParseCase {
+		return coldParseCase{Kind: "parse", Children: r.N(12, 60)}
+	}, Exec: execColdParse("C11"), NoJournal: true, HangLimit: 1800 * time.Second}, 0)
 	core.DFS(r, core.Check[longParserCase]{Name: "long-lived-parser", Gen: func(s core.Source) longParserCase {
 		return longParserCase{Docs: r.N(12000, 60000), Notation: s.Choose(2, "notation") == 1}
 	}, Exec: execLongParser("C11"), NoJournal: true, HangLimit: 600 * time.Second}, 0)
